@@ -68,6 +68,14 @@ var neutralisers = []struct {
 	{name: "invalid-utf8", fn: func(s string) string { return strings.ToValidUTF8(s, "?") }},
 	{name: "multiline-{{-}}", fn: func(s string) string { return flattenBetween(s, "{{", "}}") }, tpl: true},
 	{name: "multiline-{%-%}", fn: func(s string) string { return flattenBetween(s, "{%", "%}") }, tpl: true},
+	{name: "line break inside an end tag", fn: func(s string) string { return flattenBetween(s, "</", ">") }, tpl: true},
+	{name: "backslash-newline in a script or style string", fn: func(s string) string {
+		return strings.NewReplacer("\\\r\n", "   ", "\\\n", "  ").Replace(s)
+	}, tpl: true},
+	{name: "line break inside a tag", fn: func(s string) string { return flattenBetween(s, "<", ">") }, tpl: true},
+	{name: "URL in Markdown", fn: func(s string) string {
+		return strings.NewReplacer("https://", "https_  ", "http://", "http_  ").Replace(s)
+	}, tpl: true},
 }
 
 // flattenBetween replaces the line breaks between open and the next close by spaces.
@@ -703,6 +711,8 @@ func spaces(tier string) []kit.Space {
 		})
 	}
 	sps = append(sps, emitterSpace())
+	sps = append(sps, newlineSpaces(tier)...)
+	sps = append(sps, programSetSpace(), expansionSpace())
 	return sps
 }
 
